@@ -1,4 +1,4 @@
-import Cppcms.C06.Refine9
+import Cppcms.C06.RefineA
 /-!
 # C06 — property theorems
 
@@ -367,6 +367,22 @@ theorem malformed_sid_never_reaches_storage_history (cfg : Cfg) (env : Env) (ste
     ∀ e ∈ (run cfg env ⟨[], []⟩ 0 steps).1.log, Spec.wellFormedId e.2 = true :=
   run_log cfg env ⟨[], []⟩ 0 steps he (fun _ h => by cases h)
 
+/-- **Exposed values appear in and disappear from cookies in step with the session.**  Whenever `save()`
+does anything (clears or writes), then for every key the browser's `<prefix>_<key>` cookie afterwards
+(`jfind k` of the jar after applying every `Set-Cookie` of `save()` in order) is exactly the entry's value if the
+entry is exposed and non-empty in the saved session, and absent otherwise (`exposedLookup`).  Hypotheses: the jar
+reported the names of its cookies (`remove_unknown_cookies`), it was in step with the session that was loaded
+(vacuous if none was), the session data are well-formed maps, and the cookie age is not negative. -/
+theorem exposed_cookies_in_step (ctx : Ctx) (s : Sess) (st : Store) (next : Nat) (st1 : Store) (n1 : Nat) (cs : List SetCookie) (kind : SaveKind)
+    (h : siSave ctx s st next = .ok (st1, n1, cs, kind)) (hkind : kind ≠ .untouched)
+    (J : Jar) (k : Key) (hk : k ≠ [])
+    (hsd : Sorted s.data) (hsc : Sorted s.copy) (hage : 0 ≤ cookieAgeOf ctx s)
+    (hnames : ∀ v, jfind k J.exposed = some v → k ∈ ctx.names)
+    (hstep : ∀ e, dfind k s.copy = some e → e.exposed = true →
+      jfind k J.exposed = if e.value.isEmpty then none else some e.value) :
+    jfind k (J.applyAll cs).exposed = exposedLookup s.data k :=
+  siSave_exposed_in_step ctx s st next st1 n1 cs kind h hkind J k hk hsd hsc hage hnames hstep
+
 /-- **The 10 % renewal window** as the source has it (`delta < timeout_val_ * 0.1` with
 `delta = now + timeout_val_ - timeout_in_`): an unchanged renew/browser session is not rewritten while fewer
 than a tenth of its period has passed since `timeout_in_ - timeout_val_`, the instant of the last write. -/
@@ -466,6 +482,13 @@ example : (request (stepCtx exCfg exEnv ⟨exTok, [], 1101, []⟩)
     (request (stepCtx exCfg exEnv exStep) ⟨[], []⟩ 0 exStep.ops).store 1 []).reads =
     .ok ⟨[], 100, 1, false⟩ := by decide +kernel
 
+
+-- exposed cookies: a request exposing `k` leaves the browser with `<prefix>_k = v`; hiding it removes the cookie
+example : ((Jar.empty.applyAll (request (stepCtx exCfg exEnv ⟨[], [], 1000, []⟩) ⟨[], []⟩ 0 [.set [107] [118], .expose [107]]).cookies).exposed,
+    ((Jar.empty.applyAll (request (stepCtx exCfg exEnv ⟨[], [], 1000, []⟩) ⟨[], []⟩ 0 [.set [107] [118], .expose [107]]).cookies).applyAll
+      (request (stepCtx exCfg exEnv ⟨exTok, [[107]], 1001, []⟩)
+        (request (stepCtx exCfg exEnv ⟨[], [], 1000, []⟩) ⟨[], []⟩ 0 [.set [107] [118], .expose [107]]).store 1 [.hide [107]]).cookies).exposed) =
+    ([([107], [118])], []) := by decide +kernel
 
 /-! ### known finding: working values set before `clear()` are used but not persisted
 
